@@ -298,6 +298,18 @@ func (r *l2runner) exec(op *l2op) {
 			op.Res = "META"
 			op.Out = strings.Fields(string(it.Body))
 		}
+	case "T": // what the in-memory index (collision table, then tree) holds for the key: version, value hash, position
+		ki := store.NewKeyInfoFromBytes(k, 0, false)
+		p, pos, err := r.hs.Get(ki, true)
+		switch {
+		case err != nil:
+			op.Res = "ERR"
+		case p == nil:
+			op.Res = "MISS"
+		default:
+			op.Res = "TREE"
+			op.Out = []string{strconv.Itoa(int(p.Ver)), strconv.Itoa(int(p.ValueHash)), strconv.Itoa(pos.ChunkID), strconv.FormatUint(uint64(pos.Offset), 10)}
+		}
 	case "F":
 		r.hs.VerifFlush()
 		op.Res = "OK"
@@ -601,8 +613,10 @@ func init() {
 					op.Delta = r.Intn(200) - 50
 				case p < 70:
 					op.Op = "G"
-				case p < 80:
+				case p < 77:
 					op.Op = "M"
+				case p < 80:
+					op.Op = "T"
 				case p < 86:
 					op.Op = "F"
 					op.K = ""
@@ -705,6 +719,13 @@ func init() {
 					c.Ops = append(c.Ops, g)
 				}
 				rs := l2op{Op: "R", RmTrees: r.Bool(), RmMerged: true}
+				if r.Bool() { // every hint file gone too: the index is rebuilt from the data files alone
+					for ck := 0; ck < 24; ck++ {
+						for sp := 0; sp < 6; sp++ {
+							rs.RmHints = append(rs.RmHints, [2]int{ck, sp})
+						}
+					}
+				}
 				run.exec(&rs)
 				c.Ops = append(c.Ops, rs)
 				if rs.Res == "OK" {
@@ -712,6 +733,9 @@ func init() {
 						g := l2op{Op: "M", K: hex.EncodeToString(k)}
 						run.exec(&g)
 						c.Ops = append(c.Ops, g)
+						gt := l2op{Op: "T", K: hex.EncodeToString(k)}
+						run.exec(&gt)
+						c.Ops = append(c.Ops, gt)
 						g2 := l2op{Op: "G", K: hex.EncodeToString(k)}
 						run.exec(&g2)
 						c.Ops = append(c.Ops, g2)
